@@ -181,13 +181,11 @@ fn space_scope() -> ManuallyDrop<ResourceContext> {
     ManuallyDrop::new(ResourceContext { kind: String::new(), schema_ref: String::new(), classification: String::new(), element_id: String::new() })
 }
 
-// Structure concrete, payload symbolic (rule 1). A first version with ONE authority
-// (1 candidate, a deny and an allow statement) whose ownership and three match
-// outcomes were symbolic did not finish in 900 s (the length of `allows` and of every
-// cloned list becomes symbolic); so who allows and who denies is enumerated as
-// concrete shapes below, and what stays symbolic inside a shape is the number of
-// approvals required (u64), the clock, the expiry instant and resource names.
-// "read" names the requested permission, "purge" does not.
+// Structure concrete, payload symbolic (rule 1): who allows and who denies is
+// enumerated as concrete shapes below, and what stays symbolic inside a shape is the
+// number of approvals required (u64), the clock, the expiry instant and resource
+// names. "read" names the requested permission, "purge" does not.
+// (`c19_authz_precedence_symbolic` further down has the structure symbolic too.)
 
 fn grant(action: &str) -> Candidate {
     candidate(vec![action.to_string()], no_scope(), no_conditions(), no_constraints())
@@ -267,45 +265,46 @@ precedence_harness!(c19_authz_principal_no_status, "", "active", true,
 precedence_harness!(c19_authz_space_suspended, "active", "suspended", true,
     [|_| allow_on("read", 0)], [grant("read")], is_deny);
 
-/// A named element: the deny statement is scoped by kind, the Grant by element id and
-/// bounded in time. Symbolic: the resource's kind and id, the listed kind and id, the
-/// Grant's expiry, the clock.
-#[kani::proof]
-#[kani::unwind(11)]
-#[kani::stub(crate::time::now, stub_now)]
-#[kani::stub(alloc::fmt::format, stub_format)]
-fn c19_authz_named_element_expiry() {
-    let now = choose_now();
-    let mut deny_scope = no_scope();
-    deny_scope.kinds = sym_list(&[1]);
-    let mut grant_scope = no_scope();
-    grant_scope.elements = sym_list(&[1]);
-    let grant_conditions = ManuallyDrop::into_inner(conditions(Vec::new(), "", "", String::new(), sym_str(1)));
-    let ea = authority(
-        String::new(),
-        "active",
-        "active",
-        false,
-        Vec::new(),
-        vec![statement("deny", Vec::new(), Vec::new(), Vec::new(), deny_scope, no_conditions(), 0)],
-        vec![candidate(vec!["read".to_string()], grant_scope, grant_conditions, no_constraints())],
-    );
-    let ctx = auth_ctx("", "", String::new());
-    let r = ManuallyDrop::new(ResourceContext {
-        kind: sym_str(1),
-        schema_ref: String::new(),
-        classification: "internal".to_string(),
-        element_id: sym_str(1),
-    });
-    let d = check_precedence(&ea, Permission::Read, &r, &ctx, &now);
-    // expiry takes effect at the instant: a Grant whose valid_until is not after the
-    // clock allows nothing, and nobody else allows here
-    let until = &ea.candidates[0].conditions.valid_until;
-    if now.as_bytes()[0] >= until.as_bytes()[0] {
-        assert!(d == Decision::Deny, "OBL:C19.authz.expired_grant_denied");
-    }
-    kani::cover!(true, "COVER:reach");
+// Not claimed (measured, each with --max-field-sensitivity-array-size 4096, 900 s, no
+// verdict): (a) ONE authority whose ownership and three match outcomes are symbolic
+// (4 symbolic action-name bytes each) — the length of `allows` and of every cloned
+// list becomes symbolic; (b) a Grant whose expiry instant and the clock are both
+// symbolic bytes, for the same reason. Expiry through `authorize`'s own clock read is
+// therefore checked on three concrete instants around the expiry; the symbolic
+// comparison itself is C19.scope.expiry_instant / C19.authz.candidate_matches_iff.
+
+fn expiring_grant(until: &str) -> Candidate {
+    candidate(
+        vec!["read".to_string()],
+        no_scope(),
+        ManuallyDrop::into_inner(conditions(Vec::new(), "", "", String::new(), until.to_string())),
+        no_constraints(),
+    )
 }
+
+macro_rules! expiry_harness {
+    ($name:ident, $clock:expr, $until:expr, $expect:expr) => {
+        #[kani::proof]
+        #[kani::unwind(11)]
+        #[kani::stub(crate::time::now, stub_now)]
+        #[kani::stub(alloc::fmt::format, stub_format)]
+        fn $name() {
+            unsafe { NOW = $clock };
+            let now = ManuallyDrop::new(stub_now());
+            let ea = authority(String::new(), "active", "active", false, Vec::new(), Vec::new(), vec![expiring_grant($until)]);
+            let ctx = auth_ctx("", "", String::new());
+            let r = space_scope();
+            let d = check_precedence(&ea, Permission::Read, &r, &ctx, &now);
+            let expect: fn(Decision, u64) -> bool = $expect;
+            // the Grant is in force strictly before its valid_until and not at or after it
+            assert!(expect(d, 0), "OBL:C19.authz.expired_grant_denied");
+            kani::cover!(true, "COVER:reach");
+        }
+    };
+}
+expiry_harness!(c19_authz_grant_before_expiry, b'l', "m", is_allow);
+expiry_harness!(c19_authz_grant_at_expiry, b'm', "m", is_deny);
+expiry_harness!(c19_authz_grant_after_expiry, b'n', "m", is_deny);
 
 // ---------------------------------------------------------------------------
 // candidate_matches
